@@ -10,15 +10,28 @@ sys.path.insert(0, os.path.join(vf.VERIF, "lib"))
 import c09chain
 
 META = {
-    "text": "Theorems (Coq, no axioms) over the slot/membership/acceptance model: every instant has exactly one owning producer index, "
-            "slots partition time into ((k-1)*iv, k*iv] with owners rotating mod n, two valid signers for one timestamp are equal, "
-            "non-members are never valid, timestamps >= 2 intervals ahead are rejected; for all intervals, producer counts and timestamps. "
-            "The model is tied to /repo on every run by evaluating it (vm_compute) on the cases the real slot package and the real "
-            "DPoS.IsBlockValid/VerifySign/VerifyTimestamp were run on.",
-    "note": "Trusted: Coq kernel/vm_compute; correspondence harness and generator; ECDSA as an oracle (signature coverage of each header "
+    "text": "Theorems (Coq, no axioms). Slot/membership level: every instant has exactly one owning producer index, slots partition time into "
+            "((k-1)*iv, k*iv] with owners rotating mod n, two valid signers for one timestamp are equal, non-members are never valid, "
+            "timestamps >= 2 intervals ahead are rejected; for all intervals, producer counts and timestamps. Chain-service level "
+            "(coq/Dpos/Accept.v mirrors addBlock/addBlockInternal/chainProcessor/resolveOrphan/orphan pool/reorg in the order the code "
+            "performs the checks): for EVERY sequence of arrivals (any order, duplicates, children before parents, forged twins) every "
+            "main-chain block has a verifying signature, was not future at one of its arrivals and its signer owns the slot of its "
+            "timestamp in the producer set in force after a vetted block (C09_accepted_blocks_legitimate, by induction over arrivals with "
+            "the orphan-pool invariant); stored side-branch blocks and parked orphans satisfy the signature and clock clauses. Partial: "
+            "the set is the one in force after the block's own parent only while no reorganisation failed in rollforward "
+            "(C09_connected_validated_against_parent_partial / _refuted, known finding F41). raftv2 enforces the signature clause only, sbp "
+            "none (theorems, property written for DPoS). All models are tied to /repo on every run: real slot package, real "
+            "DPoS.IsBlockValid/VerifySign/VerifyTimestamp, a real ChainService fed with real signed blocks behind an adapter running the "
+            "DPoS verification code (result, consensus call order, main chain, chain DB, orphan pool, errBlocks after every arrival), "
+            "real raftv2/sbp block factories; plus the property itself evaluated on the implementation's observations.",
+    "note": "Trusted: Coq kernel/vm_compute; correspondence harnesses and generators; ECDSA as an oracle (signature coverage of each header "
             "field is checked on the implementation by mutation, and proved at the byte level in C19's codec model); no int64 overflow "
-            "(timestamps < 2^62); producer set non-empty.",
-    "technique": "Coq proof over Gallina slot model + vm_compute correspondence against real slot/dpos packages",
+            "(timestamps < 2^62); producer set non-empty. Chain level: package chain cannot import consensus/impl/dpos (cycle), so the "
+            "engine's consensus is an adapter with the bodies of DPoS.VerifyTimestamp (future test) / VerifySign / IsBlockValid over the "
+            "real slot, bp.Cluster and block.VerifySign; the producer set after Update(block) is scripted per block (elections: C08); "
+            "LIB part of VerifyTimestamp/NeedReorganization, own-produced blocks and errBlocks eviction are not modelled (C08/C05); "
+            "validation+execution of the body is one bit.",
+    "technique": "Coq proof over Gallina slot + acceptance-pipeline models, vm_compute correspondence against real slot/dpos/chain/raftv2/sbp packages",
 }
 
 FIELDS = ["ChainID", "PrevBlockHash", "BlockNo", "Timestamp", "BlocksRootHash", "TxsRootHash",
@@ -72,11 +85,15 @@ def run(ctx):
     T["prove"] = round(time.time() - t0, 1)
     ctx.cov["trusted_base"] = [
         "Coq 8.16.1 kernel + vm_compute", "Go toolchain", "overlay build of package dpos (VM stub irrelevant here)",
-        "libp2p secp256k1 (signature oracle)", "case generator checks/C09.py",
+        "libp2p secp256k1 (signature oracle)", "case generator checks/C09.py + lib/c09chain.py",
+        "overlay build of packages chain, raftv2, sbp; consensus adapter of harness/engines/c09chain (DPoS function bodies over real slot/bp/types)",
+        "genesis block and state of a testnet ChainService on a private memorydb",
     ]
     ctx.assumptions = ["timestamps are non-negative and below 2^62 ns (no int64 overflow)",
                        "producer set non-empty (Go would divide by zero otherwise) and <= 65535 members",
-                       "ECDSA verification is an oracle (sig_ok bit)"]
+                       "ECDSA verification is an oracle (sig_ok bit)",
+                       "chain level: producer set is a function of the last block passed to consensus.Update (scripted per block); fewer than 128 errored blocks; "
+                       "block body validation + execution abstracted to one bit; LIB rules not applied"]
     # ---- engines
     rc, log, slotbin = ctx.go_test_binary(
         "consensus/impl/dpos/slot", [os.path.join(vf.HARNESS, "engines/slot/zz_verif_slot_engine_test.go")],
@@ -212,6 +229,16 @@ def run(ctx):
     if rc != 0:
         raise RuntimeError("dpos C09 engine failed:\n" + log[-3000:])
     obs = [json.loads(l) for l in open(fout)]
+    # DPoS.IsConnectedBlock: addBlock returns nil without any check for a block it reports connected
+    fcon = os.path.join(ctx.workdir, "c09conn.out")
+    rc, log = ctx.run_bin(dposbin, ["-test.run", "TestVerifC09ConnectedEngine"], env={"VERIF_OUT": fcon})
+    if rc != 0:
+        raise RuntimeError("dpos C09 connected engine failed:\n" + log[-3000:])
+    con = json.loads(open(fcon).read())
+    conn_fail = []
+    if con != {"stored": True, "twin_same_number": False, "unknown": False, "fork_enabled": True}:
+        conn_fail.append(("C09:isconnectedblock", "DPoS.IsConnectedBlock/IsForkEnable: a block that is not in the chain DB is reported connected "
+                          "(addBlock would return nil for it unchecked), or forks are disabled", con))
     if len(obs) != len(dc):
         raise RuntimeError("dpos C09 engine: %d observations for %d cases" % (len(obs), len(dc)))
     items = []
@@ -277,6 +304,11 @@ def run(ctx):
     t1 = time.time()
     chain_fail, chain_broken = chain_level(ctx)
     T["chain"] = round(time.time() - t1, 1)
+    t1 = time.time()
+    other_fail, other_broken = other_consensus(ctx)
+    pred_fail = pred_fail + other_fail
+    corr_broken = corr_broken or other_broken
+    T["raft+sbp"] = round(time.time() - t1, 1)
     pred_fail = chain_fail + pred_fail
     corr_broken = chain_broken or corr_broken
 
@@ -349,6 +381,53 @@ def chain_level(ctx):
                                                  "sequence of consensus call kinds) pairs")
     ctx.cov["chain_level"] = {"scenarios": len(S), "corpus": ncorpus, "arrivals": narr, "result_classes": classes,
                               "distinct_(result,call-shape)": len(nontriv)}
+    return fails, broken
+
+
+def other_consensus(ctx):
+    """raftv2 / sbp: their VerifyTimestamp / VerifySign / IsBlockValid on real signed blocks against
+    the predicates raft_checks / sbp_checks of Dpos/Accept.v.  The DPoS clauses they do not check are
+    theorems (C09_raft_..._refuted, C09_sbp_all_clauses_refuted), not findings: the property is
+    written for DPoS."""
+    fails, broken = [], None
+    cases = [{"sig": sg, "future": f} for sg in ("ok", "nosig", "wrongkey", "badkey", "mut:Timestamp", "mut:BlockNo",
+                                                  "mut:CoinbaseAccount", "mut:Sign") for f in (0, 10)]
+    items = []
+    B = lambda b: "true" if b else "false"
+    for k, (pkg, eng, name) in enumerate((("consensus/impl/raftv2", "zz_verif_c09raft_engine_test.go", "c09raft.test"),
+                                          ("consensus/impl/sbp", "zz_verif_c09sbp_engine_test.go", "c09sbp.test"))):
+        rc, log, binp = ctx.go_test_binary(pkg, [os.path.join(vf.HARNESS, "engines/c09chain", eng)], name)
+        if rc != 0:
+            raise RuntimeError("%s engine build failed:\n%s" % (pkg, log[-3000:]))
+        fin = os.path.join(ctx.workdir, name + ".in")
+        fout = os.path.join(ctx.workdir, name + ".out")
+        with open(fin, "w") as f:
+            for c in cases:
+                f.write(json.dumps(c) + "\n")
+        rc, log = ctx.run_bin(binp, ["-test.run", "TestVerifC09OtherEngine"], env={"VERIF_IN": fin, "VERIF_OUT": fout})
+        if rc != 0:
+            raise RuntimeError("%s engine failed:\n%s" % (pkg, log[-3000:]))
+        obs = [json.loads(l) for l in open(fout)]
+        if len(obs) != len(cases):
+            raise RuntimeError("%s engine: %d observations for %d cases" % (pkg, len(obs), len(cases)))
+        for c, o in zip(cases, obs):
+            items.append("((%d,%s,%s),(%s,%s,%s))" % (k, B(o["key_parses"]), B(o["sig_real"]), B(o["ts_ok"]), B(o["sign_ok"]), B(o["valid"])))
+            if (c["sig"] == "ok") != o["sig_real"]:
+                fails.append(("C09:signature-oracle-" + pkg.split("/")[-1], "block.VerifySign disagrees with the construction (%s)" % c["sig"], dict(case=c, obs=o)))
+            # the one clause raft does enforce, directly on the implementation
+            if k == 0 and o["sign_ok"] and not o["sig_real"]:
+                fails.append(("C09:raft-bad-signature-accepted", "raftv2 VerifySign accepts a block whose signature does not verify", dict(case=c, obs=o)))
+    txt = ["From Coq Require Import ZArith List Bool.", "From Verif Require Import Dpos.Slot Dpos.Accept.", "Import ListNotations.",
+           "Open Scope Z_scope.", "Definition cases := [%s]." % ";\n".join(items),
+           "Definition MO := Eval vm_compute in mismatches_from other_case_ok cases 0.", "Print MO."]
+    rc, out = ctx.coq_eval("other_cases", "\n".join(txt))
+    m = parse_all(out) if rc == 0 else None
+    if not m:
+        broken = ("raft/sbp correspondence could not be evaluated", out[-2000:])
+    elif m[0]:
+        broken = ("raft_checks / sbp_checks differ from the implementation", [items[i] for i in m[0][:5]])
+    ctx.cov["evaluations"] = ctx.cov.get("evaluations", 0) + len(items)
+    ctx.cov["other_consensus"] = {"cases": len(items), "note": "raftv2: signature clause only; sbp: no clause (theorems C09_raft_*, C09_sbp_*)"}
     return fails, broken
 
 
